@@ -139,25 +139,82 @@ Theorem C14_session_accepts : forall st f, sreachable st -> sess_closed st = fal
 Proof. exact session_accepts. Qed.
 Print Assumptions C14_session_accepts.
 
-(* Relay level (design finding F15, reproduced on loopback UDP by harness/client/c14_udp_test.go):
-   around the Stream interface, client.RouteUDP reads each datagram of the local application into
-   an 8192-byte buffer.  The property taken at the relay - every datagram that fits one frame is
-   forwarded whole - is FALSE of the faithful model; what holds is stated as C14_relay_partial. *)
-Definition C14_relay_full : Prop := forall d,
+(* ---- Relay level (design finding F15) ------------------------------------------------------
+   Around the Stream interface the client (client.RouteUDP) and the server (serveSession with a "udp"
+   ProxyBook entry) move datagrams between a UDP socket and a stream.  Both relays are driven on
+   loopback UDP by harness/client/c14_udp_test.go and harness/server/c14_udp_test.go.
+
+   Client relay, current code (buffers of 65535 bytes since /repo commit e32244c): a datagram that
+   fits one frame is forwarded whole, a larger one is refused by Stream.Write. *)
+Theorem C14_relay_full : forall d,
+  ((0 < Z.of_nat (length d) <= max_unit 16401)%Z ->
+     route_udp_up (max_unit 16401) d = (Z.of_nat (length d), SwNil, [d]))
+  /\ ((max_unit 16401 < Z.of_nat (length d))%Z ->
+     route_udp_up (max_unit 16401) d = (0%Z, SwShortBuffer, [])).
+Proof. exact relay_full. Qed.
+Print Assumptions C14_relay_full.
+
+(* ... and towards the application: a datagram of the peer that fits the relay buffer (every
+   datagram a frame can carry does: max_unit 16401 < relay_buf) is handed over whole *)
+Theorem C14_relay_down_whole : forall bufsize p x rest, reachable p -> pending p = x :: rest ->
+  (N.of_nat (length x) <= bufsize)%N ->
+  exists p', relay_down bufsize p = (p', Some x) /\ pending p' = rest.
+Proof. exact relay_down_whole. Qed.
+Print Assumptions C14_relay_down_whole.
+
+Theorem C14_relay_buf_covers_frames : (0 <= max_unit 16401 < Z.of_N relay_buf)%Z.
+Proof. exact max_unit_lt_relay_buf. Qed.
+Print Assumptions C14_relay_buf_covers_frames.
+
+(* What the fix repaired: with the former 8192-byte buffers (relay_buf_prefix) the same statement
+   was false - an 8193-byte datagram, well inside the frame maximum, went out cut to 8192 bytes
+   (C14_relay_cut says exactly what went out), and one coming from the peer stopped the relay. *)
+Definition C14_relay_prefix_full : Prop := forall d,
   (0 < Z.of_nat (length d) <= max_unit 16401)%Z ->
-  route_udp_up (max_unit 16401) d = (Z.of_nat (length d), SwNil, [d]).
+  relay_up relay_buf_prefix (max_unit 16401) d = (Z.of_nat (length d), SwNil, [d]).
 
-Theorem C14_relay_refuted : ~ C14_relay_full.
-Proof. exact relay_refuted. Qed.
-Print Assumptions C14_relay_refuted.
+Theorem C14_refuted_prefix_relay : ~ C14_relay_prefix_full.
+Proof. exact relay_prefix_refuted. Qed.
+Print Assumptions C14_refuted_prefix_relay.
 
-Theorem C14_relay_partial : forall maxu d, (Z.of_N relay_buf <= maxu)%Z ->
-  ((0 < N.of_nat (length d) <= relay_buf)%N ->
-     route_udp_up maxu d = (Z.of_nat (length d), SwNil, [d]))
-  /\ ((relay_buf < N.of_nat (length d))%N ->
-     route_udp_up maxu d = (Z.of_N relay_buf, SwNil, [firstn (N.to_nat relay_buf) d])).
-Proof. exact relay_partial. Qed.
-Print Assumptions C14_relay_partial.
+Theorem C14_refuted_prefix_relay_down : exists p x,
+  reachable p /\ pending p = [x] /\ (Z.of_nat (length x) <= max_unit 16401)%Z
+  /\ relay_down relay_buf_prefix p = (p, None).
+Proof. exact relay_down_prefix_refuted. Qed.
+Print Assumptions C14_refuted_prefix_relay_down.
+
+(* for any buffer size: whole up to the buffer; above a buffer that is not larger than a frame the
+   first [bufsize] bytes are sent as if they were the datagram *)
+Theorem C14_relay_whole_upto_buffer : forall bufsize maxu d,
+  (0 < N.of_nat (length d) <= bufsize)%N -> (Z.of_nat (length d) <= maxu)%Z ->
+  relay_up bufsize maxu d = (Z.of_nat (length d), SwNil, [d]).
+Proof. exact relay_up_whole. Qed.
+Print Assumptions C14_relay_whole_upto_buffer.
+
+Theorem C14_relay_cut : forall bufsize maxu d, (0 < bufsize)%N -> (Z.of_N bufsize <= maxu)%Z ->
+  (bufsize < N.of_nat (length d))%N ->
+  relay_up bufsize maxu d = (Z.of_N bufsize, SwNil, [firstn (N.to_nat bufsize) d]).
+Proof. exact relay_up_cut. Qed.
+Print Assumptions C14_relay_cut.
+
+(* Server relay (OPEN known finding): Stream.ReadFrom reads the proxy server's datagram into
+   maxStreamUnitWrite bytes.  "A datagram too large for one frame is refused at the sender" is FALSE
+   there: a 16133-byte datagram is forwarded as its first 16132 bytes.  What holds: datagrams up
+   to the frame maximum go out whole; a larger one goes out as exactly its first maxu bytes. *)
+Definition C14_server_relay_full : Prop := forall d,
+  (max_unit 16401 < Z.of_nat (length d))%Z -> stream_read_from_dgram (max_unit 16401) d = [].
+
+Theorem C14_server_relay_refuted : ~ C14_server_relay_full.
+Proof. exact server_relay_refuted. Qed.
+Print Assumptions C14_server_relay_refuted.
+
+Theorem C14_server_relay_partial : forall maxu d, (0 < maxu)%Z ->
+  ((0 < Z.of_nat (length d) <= maxu)%Z -> stream_read_from_dgram maxu d = [d])
+  /\ ((maxu < Z.of_nat (length d))%Z ->
+       stream_read_from_dgram maxu d = [firstn (Z.to_nat maxu) d]
+       /\ Z.of_nat (length (firstn (Z.to_nat maxu) d)) = maxu).
+Proof. exact server_relay_partial. Qed.
+Print Assumptions C14_server_relay_partial.
 
 (* non-vacuity: a concrete run with short reads, an empty datagram, a closing frame *)
 Theorem C14_example_run :
